@@ -16,6 +16,6 @@ def GetID (sender : ByteArray) (to : ByteArray) (amount : List Coin) (hashLock :
 def untranslated : List String := []
 
 /-- names of the translated definitions -/
-def translated : List String := ["GetHashLock", "GetID"]
+def translated : List String := ["GetHashLock(secret,timestamp)", "GetID(sender,to,amount,hashLock,read_amount_Sort__String)"]
 
 end Irismod.Gen.PureHtlcId
